@@ -181,7 +181,10 @@ func buildSource(base string, L, changeAt int) (*source, error) {
 		b, parts := chainutil.Proposal(st, txs, []gtypes.Tx{}, lastCommit, nil, s.partSize)
 		bid := gtypes.BlockID{Hash: b.Hash(), PartsHeader: parts.Header()}
 		s.valsets = append(s.valsets, st.Validators.Copy())
-		seen, err := chainutil.Commit(chainutil.ChainID, st.Validators, s.ring, int64(h), 0, bid, nil)
+		// the canonical commit is a minimal one: the quorum that is +2/3 under the set in force and NOT under the
+		// other epoch's set, so that a verifier bound to the wrong validator set refuses honest blocks
+		signers := s.canon(h)
+		seen, err := chainutil.Commit(chainutil.ChainID, st.Validators, s.ring, int64(h), 0, bid, func(i int, v *gtypes.Validator) bool { return signers[string(v.Address)] })
 		if err != nil {
 			return nil, err
 		}
@@ -205,13 +208,29 @@ func buildSource(base string, L, changeAt int) (*source, error) {
 	return s, nil
 }
 
-// commitFor returns a commit for source block h (1-based) by the chosen validators of the set in force.
-func (s *source) commitBy(h int, names string) *gtypes.Commit {
-	vs := s.valsets[h-1]
+func nameSet(names string) map[string]bool {
 	want := map[string]bool{}
 	for _, c := range names {
 		want[string(chainutil.NewKey("val-"+string(c)).Addr)] = true
 	}
+	return want
+}
+
+// epoch2 reports whether height h lies at or after the validator-set change.
+func (s *source) epoch2(h int) bool { return s.changeAt > 1 && h >= s.changeAt }
+
+// canon: signers of the canonical commit of block h -- {B,C,D} (3/4) before the change, {A,B} (6/8) after it.
+func (s *source) canon(h int) map[string]bool {
+	if s.epoch2(h) {
+		return nameSet("AB")
+	}
+	return nameSet("BCD")
+}
+
+// commitBy returns a commit for source block h (1-based) by the chosen validators of the set in force.
+func (s *source) commitBy(h int, names string) *gtypes.Commit {
+	vs := s.valsets[h-1]
+	want := nameSet(names)
 	c := &gtypes.Commit{BlockID: s.snaps[h-1].blockID, Precommits: make([]*gtypes.Vote, vs.Size())}
 	for i, val := range vs.Validators {
 		if want[string(val.Address)] {
@@ -225,7 +244,7 @@ func (s *source) commitBy(h int, names string) *gtypes.Commit {
 // tamperings the class stands for.
 func (s *source) serve(h int, class string, variant int) (*gtypes.Block, string) {
 	b := copyBlock(s.blocks[h-1])
-	epoch2 := s.changeAt > 1 && h-1 >= s.changeAt // is the block whose commit b carries (h-1) in the second epoch?
+	epoch2 := s.epoch2(h - 1) // is the block whose commit b carries (h-1) in the second epoch?
 	switch class {
 	case "good":
 		return b, "good"
@@ -260,8 +279,13 @@ func (s *source) serve(h int, class string, variant int) (*gtypes.Block, string)
 			b.Header.Extra = []byte("y") // block 1 has no commit to thin out
 			return b, "header Extra altered"
 		}
-		b.LastCommit = s.commitBy(h-1, "ABC") // 3/4 resp. 7/8: still +2/3
-		return b, "LastCommit without D's vote (still +2/3)"
+		// another commit than the canonical one that also holds +2/3 of the set in force
+		if epoch2 {
+			b.LastCommit = s.commitBy(h-1, "ACD") // 7/8
+			return b, "LastCommit by A,C,D (7/8) instead of the canonical A,B"
+		}
+		b.LastCommit = s.commitBy(h-1, "ABC") // 3/4
+		return b, "LastCommit by A,B,C (3/4) instead of the canonical B,C,D"
 	case "fewvotes":
 		if h == 1 {
 			b.LastCommit = &gtypes.Commit{Precommits: []*gtypes.Vote{nil}}
@@ -458,7 +482,7 @@ type view struct {
 	Conn     []string
 	Switched bool
 	Store    int64
-	State    int64 // State.LastBlockHeight (read while the executer may be running: only compared for equality)
+	State    int64 // height of the state last saved (State.Save() is the executer's final statement for a block)
 }
 
 type syncNode struct {
@@ -482,7 +506,7 @@ func (n *syncNode) isSwitched() bool {
 
 func (n *syncNode) view(L int) view {
 	pv := n.pool.VerifView(int64(L))
-	v := view{Height: pv.Height, Req: map[int64][2]string{}, PeerH: map[string]int64{}, Switched: n.isSwitched(), Store: n.kit.Ang.VerifAsmStore().Height(), State: n.kit.State().LastBlockHeight}
+	v := view{Height: pv.Height, Req: map[int64][2]string{}, PeerH: map[string]int64{}, Switched: n.isSwitched(), Store: n.kit.Ang.VerifAsmStore().Height(), State: n.kit.SavedHeight()}
 	for _, r := range pv.Requesters {
 		p, b := "none", "none"
 		if r.PeerID != "" {
